@@ -210,3 +210,56 @@ Proof.
         unfold effective. cbn [filter is_eintr snd]. rewrite N.eqb_refl. cbn [negb]. apply IH. exact Hb'.
       * intros _. unfold effective. cbn [u_trace filter is_eintr snd]. apply N.eqb_neq in He. rewrite He. cbn [negb length]. lia.
 Qed.
+
+(* ---------------- the byte buffer holds every read (no out-of-range slice, hence no panic in a pool job) ------------- *)
+Definition reads_fit (cap : N) (t : utrace) : Prop :=
+  Forall (fun e => match fst e with URead _ n => n <= cap | UWrite _ _ _ => True end) t.
+
+Lemma reads_fit_mono cap cap' t : cap <= cap' -> reads_fit cap t -> reads_fit cap' t.
+Proof.
+  intros Hc H. unfold reads_fit in *. eapply Forall_impl; [|exact H].
+  intros [[o n|s o n] a]; cbn; [lia|trivial].
+Qed.
+
+Lemma reads_fit_app cap t1 t2 : reads_fit cap (t1 ++ t2) <-> reads_fit cap t1 /\ reads_fit cap t2.
+Proof. unfold reads_fit. apply Forall_app. Qed.
+
+Lemma copy_range_uspace_reads_fit fuel : forall nbytes off w ans,
+  reads_fit nbytes (u_trace (copy_range_uspace fuel nbytes off w ans)).
+Proof.
+  induction fuel as [|f IH]; intros nbytes off w ans; cbn [copy_range_uspace].
+  - destruct (N.leb_spec nbytes w); cbn; constructor.
+  - destruct (N.leb_spec nbytes w); [cbn; constructor|].
+    destruct ans as [|[rlen|e] rest]; cbn [u_trace]; [constructor| |repeat constructor; cbn; lia].
+    destruct (N.eqb_spec rlen 0); cbn [u_trace]; [repeat constructor; cbn; lia|].
+    destruct rest as [|[wlen|e] rest']; cbn [u_trace]; [repeat constructor; cbn; lia| |repeat constructor; cbn; lia].
+    destruct (N.ltb_spec wlen rlen); cbn [u_trace u_app]; [repeat constructor; cbn; lia|].
+    apply reads_fit_app. split; [repeat constructor; cbn; lia|apply IH].
+Qed.
+
+Lemma write_all_reads_fit fuel : forall cap src wpos n ans, reads_fit cap (u_trace (write_all fuel src wpos n ans)).
+Proof.
+  induction fuel as [|f IH]; intros cap src wpos n ans; cbn [write_all].
+  - destruct (N.eqb_spec n 0); cbn; constructor.
+  - destruct (N.eqb_spec n 0); [cbn; constructor|].
+    destruct ans as [|[k|e] rest]; cbn [u_trace]; [constructor| |].
+    + destruct (N.eqb_spec k 0); cbn [u_trace u_cons]; [repeat constructor|].
+      constructor; [cbn; trivial|apply IH].
+    + destruct (N.eqb_spec e EINTR); cbn [u_trace u_cons]; [constructor; [cbn; trivial|apply IH]|repeat constructor].
+Qed.
+
+Lemma copy_bytes_uspace_reads_fit fuel : forall nbytes rpos wpos w ans,
+  reads_fit nbytes (u_trace (copy_bytes_uspace fuel nbytes rpos wpos w ans)).
+Proof.
+  induction fuel as [|f IH]; intros nbytes rpos wpos w ans; cbn [copy_bytes_uspace].
+  - destruct (N.leb_spec nbytes w); cbn; constructor.
+  - destruct (N.leb_spec nbytes w); [cbn; constructor|].
+    destruct ans as [|[len|e] rest]; cbn [u_trace]; [constructor| |].
+    + destruct (N.eqb_spec len 0); cbn [u_trace]; [repeat constructor; cbn; lia|].
+      pose proof (write_all_reads_fit (S (length rest)) nbytes rpos wpos len rest) as Hw.
+      destruct (u_st (write_all (S (length rest)) rpos wpos len rest)); cbn [u_trace u_app];
+        try (constructor; [cbn; lia|exact Hw]).
+      change ((URead rpos (nbytes - w), XOk len) :: ?t ++ ?u) with (((URead rpos (nbytes - w), XOk len) :: t) ++ u).
+      apply reads_fit_app. split; [constructor; [cbn; lia|exact Hw]|apply IH].
+    + destruct (N.eqb_spec e EINTR); cbn [u_trace u_cons]; [constructor; [cbn; lia|apply IH]|repeat constructor; cbn; lia].
+Qed.
